@@ -16,7 +16,7 @@ def run(ctx):
     for bias, tag in ((31, "hull_if_exact on neighbours"), (29, "difference"), (28, "simplify_using_context"),
                       (34, "difference: leastness through verified piece generators"), (37, "conversions C <-> NNC"),
                       (40, "fold_space_dimensions")):
-        pc.run_poly(ctx, ops="all", n_hist=(700 if bias == 31 else 350 if bias < 34 else 250) if quick else 8000, length=8, maxdim=3,
+        pc.run_poly(ctx, ops="all", n_hist=(700 if bias == 31 else 350 if bias < 34 else 200) if quick else 8000, length=8, maxdim=3,
                     observe_always=False, bias=bias, first=1000000 * bias, tag=tag)
     for b in broken:
         ctx.violation("proof obligation broken: " + b, {"obligation": b}, found_input=False)
